@@ -294,10 +294,7 @@ func cmdReplay(args []string) {
 				}
 			}
 		} else {
-			rec.DumpAll = false
-			for _, o := range parseOps(e.Pre) {
-				rec.apply(o)
-			}
+			rec.Pre(parseOps(e.Pre))
 			rec.DumpAll = true
 			rec.apply(parseOps([]json.RawMessage{e.Op})[0])
 			rec.RunBattery(bt)
